@@ -135,7 +135,7 @@ type vErr struct {
 	msg  string
 }
 
-var vRcpts18 = []string{"a@example.org", "b@sub.example.org", "c@xn--e1aybc.example", "d@тест.example", "юзер@example.org", "e@EXAMPLE.org"}
+var vRcpts18 = []string{"a@example.org", "b@sub.example.org", "bob@mail_gw.example.org", "c@xn--e1aybc.example", "d@тест.example", "юзер@example.org", "e@EXAMPLE.org"}
 var vOrig18 = []string{"alias@example.org", "list@тест.example", "Alias2@xn--e1aybc.example", "юзер2@example.org"}
 var vMsgs18 = []string{"mailbox unavailable", "multi\nline\r\ntext", "юникод text", "x", strings.Repeat("long words ", 12), "", "tab\there", "trailing space "}
 
@@ -173,18 +173,23 @@ func TestVerif_C18(t *testing.T) {
 		if !utf8 && !address.IsASCII(from) {
 			from = "sender@example.org"
 		}
-		meta := &QueueMetadata{
-			MsgMeta: &module.MsgMetadata{ID: fmt.Sprintf("%08x", r.intn(1<<30)), OriginalFrom: origFrom,
-				SMTPOpts: smtp.MailOptions{UTF8: utf8, RequireTLS: r.chance(20)}, OriginalRcpts: map[string]string{}},
-			From: from, RcptErrs: map[string]*smtp.SMTPError{}, TriesCount: map[string]int{},
-			FirstAttempt: time.Now().Add(-time.Hour), LastAttempt: time.Now(),
+		// the message metadata is the caller's object: the queue is given it at Start and the pipeline
+		// goes on filling it (original recipients, one entry per RCPT) afterwards
+		mm := &module.MsgMetadata{ID: fmt.Sprintf("%08x", r.intn(1<<30)), OriginalFrom: origFrom,
+			SMTPOpts: smtp.MailOptions{UTF8: utf8, RequireTLS: r.chance(20)}, OriginalRcpts: map[string]string{}}
+		dq, err := q.Start(context.Background(), mm, from)
+		if err != nil {
+			t.Fatal(err)
 		}
+		meta := dq.(*queueDelivery).meta
+		meta.TriesCount = map[string]int{}
+		meta.FirstAttempt, meta.LastAttempt = time.Now().Add(-time.Hour), time.Now()
 		connHost := ""
 		hasConn := r.chance(50)
 		if hasConn {
 			connHost = []string{"client.example.org", "", "client.тест.example"}[r.intn(3)]
-			meta.MsgMeta.Conn = &module.ConnState{Hostname: connHost}
-			meta.MsgMeta.DontTraceSender = r.chance(30)
+			mm.Conn = &module.ConnState{Hostname: connHost}
+			mm.DontTraceSender = r.chance(30)
 		}
 		nf := 1 + r.intn(3)
 		perm := r.intn(len(vRcpts18))
@@ -232,13 +237,13 @@ func TestVerif_C18(t *testing.T) {
 				if !utf8 && !address.IsASCII(o) && !r.chance(33) {
 					o = vOrig18[0]
 				}
-				meta.MsgMeta.OriginalRcpts[rc] = o
+				mm.OriginalRcpts[rc] = o
 				stats["rewritten"]++
 				// the map is shared by all recipients of the message: the address the sender used for this
 				// one can itself be the rewriting target of another (delivered) recipient
 				if r.chance(30) && address.IsASCII(o) {
-					if _, isRcpt := meta.MsgMeta.OriginalRcpts[o]; !isRcpt && o != rc {
-						meta.MsgMeta.OriginalRcpts[o] = "someone.else@example.org"
+					if _, isRcpt := mm.OriginalRcpts[o]; !isRcpt && o != rc {
+						mm.OriginalRcpts[o] = "someone.else@example.org"
 						stats["overlapping-aliases"]++
 					}
 				}
@@ -335,12 +340,12 @@ func TestVerif_C18(t *testing.T) {
 		// ---- model input ----
 		var cor, cerr, cfailed []string
 		var ks []string
-		for k := range meta.MsgMeta.OriginalRcpts {
+		for k := range mm.OriginalRcpts {
 			ks = append(ks, k)
 		}
 		sort.Strings(ks)
 		for _, k := range ks {
-			cor = append(cor, "("+cS18(k)+", "+cS18(meta.MsgMeta.OriginalRcpts[k])+")")
+			cor = append(cor, "("+cS18(k)+", "+cS18(mm.OriginalRcpts[k])+")")
 		}
 		for _, f := range failed {
 			e := errsOf[f]
@@ -355,7 +360,7 @@ func TestVerif_C18(t *testing.T) {
 		names := map[string]bool{from: true, hostname: true, connHost: true}
 		for _, f := range failed {
 			names[f] = true
-			if o := meta.MsgMeta.OriginalRcpts[f]; o != "" {
+			if o := mm.OriginalRcpts[f]; o != "" {
 				names[o] = true
 			}
 		}
@@ -384,7 +389,7 @@ func TestVerif_C18(t *testing.T) {
 		stats[fmt.Sprintf("failed_%d", len(failed))]++
 		out.Case(fmt.Sprintf("{| c_cfg := {| dc_bounce := %s; dc_hostname := %s; dc_autogen := %s |}; c_meta := {| d_id := %s; d_from := %s; d_orig_from := %s; d_utf8 := %s; d_requiretls := %s; d_orig_rcpts := %s; d_rcpt_errs := %s; d_conn_host := %s; d_dont_trace := %s |}; c_failed := %s; c_bfail := %s; c_tabs := {| t_addr := %s; t_dom := %s |}; c_out := %s; c_calls := %s |}",
 			cBool(bounce), cS18(hostname), cS18("auto.example.org"),
-			cS18(meta.MsgMeta.ID), cS18(from), cS18(origFrom), cBool(utf8), cBool(meta.MsgMeta.SMTPOpts.RequireTLS), cList(cor), cList(cerr), ch, cBool(meta.MsgMeta.DontTraceSender),
+			cS18(mm.ID), cS18(from), cS18(origFrom), cBool(utf8), cBool(mm.SMTPOpts.RequireTLS), cList(cor), cList(cerr), ch, cBool(mm.DontTraceSender),
 			cList(cfailed), stage, cList(ta), cList(td), outc, cList(bt.calls)))
 	}
 	for k, v := range stats {
